@@ -191,6 +191,7 @@ pub struct Stats {
     pub violations_total: u64,
     pub machinery: Vec<String>,
     pub capped: bool,
+    pub stopped_on_violations: bool,
     pub by_cost: BTreeMap<usize, u64>,
     pub samples: Vec<Value>,
 }
@@ -286,6 +287,12 @@ impl<'a> Explorer<'a> {
                     self.stats.capped = true;
                     return;
                 }
+                // deadlocked executions leave their parked threads behind; once a variant has
+                // produced this many violations there is nothing more to learn from it
+                if self.stats.violations_total >= 60 {
+                    self.stats.stopped_on_violations = true;
+                    return;
+                }
                 let mut p2: Vec<usize> = chosen[..i].to_vec();
                 p2.push(alt);
                 let child = run_once(self.scn, self.params, &p2, &sigs[..i + 1], false);
@@ -293,7 +300,7 @@ impl<'a> Explorer<'a> {
                 if child.machinery.is_none() {
                     self.children(&p2, &child, cost + 1, false);
                 }
-                if self.stats.capped {
+                if self.stats.capped || self.stats.stopped_on_violations {
                     return;
                 }
             }
